@@ -202,8 +202,33 @@ func runC05(c *kit.Ctx) {
 			c.Check(ok, "R05.2", k.key(st.Fn, "store PieceWriter.Error"), posOf(st.Store),
 				"Error is the error result of Piece.Write", "PieceWriter.Error assigned from "+v.String()+", not from Piece.Write's error: a failed write could look successful")
 		}
-		c.Floor("R05.2", "stores to PieceWriter.Error", ns, 1)
+		// every Piece.Write in Run has its error stored into w.Error
+		kit.Instrs(run, func(ins ssa.Instruction) {
+			call, ok := ins.(*ssa.Call)
+			if !ok || !kit.CallsAny(ins, pieceWrite) {
+				return
+			}
+			stored := false
+			for _, r := range *call.Referrers() {
+				ex, ok := r.(*ssa.Extract)
+				if !ok || ex.Index != 1 {
+					continue
+				}
+				for _, r2 := range *ex.Referrers() {
+					if st, ok := r2.(*ssa.Store); ok {
+						if _, isErr := kit.StoresField(st, fError); isErr {
+							stored = true
+						}
+					}
+				}
+			}
+			c.Check(stored, "R05.2", k.key(run, "write error kept"), posOf(ins),
+				"the error of Piece.Write is stored into PieceWriter.Error", "the error result of Piece.Write is dropped: a failed write would be reported as success and its bit set and persisted")
+		})
 	}
+
+	// ---- R05.7 a failed section write is never masked by a later one
+	checkWriteErrorDiscipline(c, k, "R05.7")
 
 	// ---- R05.3 what may be persisted as the bitfield
 	{
